@@ -16,10 +16,18 @@ Traces == JsonDeserialize(IOEnv.TRACE_FILE)
 VARIABLES tid, l, sc, st, openedAt, probe, fails, lock, res, pc, now, opened_at, should_open, cutoff, op, k
 Threads == 1..NThreads
 
+\* the state the concurrent phase starts from: the sequential setup operations applied to the
+\* breaker model (nothing is read from the implementation's private attributes)
+BM == INSTANCE Breaker WITH ClassSet <- {"TRANSIENT", "UNKNOWN"}
+CfgOf(j) == [thr |-> j.cfg.thr, W |-> j.cfg.W, R |-> j.cfg.R, trip |-> ToSet(j.cfg.trip),
+             cthr |-> [c \in {"TRANSIENT", "UNKNOWN"} |-> 0]]
+RECURSIVE After(_, _, _, _)
+After(c, b, ops, n) ==
+    IF n > Len(ops) THEN b ELSE After(c, BM!BApply(c, b, ops[n].op, ops[n].k, ops[n].t).b, ops, n + 1)
+InitOf(j) == LET b == After(CfgOf(j), BM!BInit, j.setup, 1)
+             IN  [st |-> b.st, openedAt |-> b.openedAt, probe |-> b.probe, fails |-> b.fails]
 Scn(i) == LET j == Traces[i].sc IN
-          [cfg |-> [thr |-> j.cfg.thr, W |-> j.cfg.W, R |-> j.cfg.R, trip |-> ToSet(j.cfg.trip),
-                    cthr |-> [c \in {"TRANSIENT", "UNKNOWN"} |-> 0]],
-           init |-> j.init, clock |-> j.clock, prog |-> j.prog]
+          [cfg |-> CfgOf(j), init |-> InitOf(j), clock |-> j.clock, prog |-> j.prog]
 
 BT == INSTANCE BreakerThreads WITH Scenarios <- {Scn(i) : i \in 1..NTraces}, Locked <- TRUE
 
